@@ -837,14 +837,17 @@ def _trace_param(repo, fn, pname, depth):
     command-line option that feeds it."""
     if depth > 4:
         return ("expr", pname)
-    callers = []
-    for m in repo.modules.values():
-        for f in m.functions.values():
-            if f is fn:
-                continue
-            for c in calls_in(f.node):
-                if (call_name(c) or "").split(".")[-1] == fn.qualname:
-                    callers.append((f, c))
+    idx = getattr(repo, "_callers_by_name", None)
+    if idx is None:
+        idx = {}
+        for m in repo.modules.values():
+            for f in m.functions.values():
+                for c in calls_in(f.node):
+                    nm = (call_name(c) or "").split(".")[-1]
+                    if nm:
+                        idx.setdefault(nm, []).append((f, c))
+        repo._callers_by_name = idx
+    callers = [(f, c) for f, c in idx.get(fn.qualname, []) if f is not fn]
     if not callers:
         return ("expr", pname)
     results = set()
